@@ -24,7 +24,25 @@ substitution / definition faults are additionally enumerated as a full product
 plus the history-dependent faults that contain no bad '$' at all (conflicting redefinition of
 a name defined elsewhere, use of a name before the line that defines it, a value that becomes
 unconvertible only through a name defined elsewhere), at every line position of every resource.
+
+Wave 5 - two axes that the faults were never varied along.
+(a) ADDRESSING: how the main resource gets its URL, and how %include lines refer to the others.  Until now
+    every load was loader.loadFile(StringIO, <url>) with relative references, so "the resource's URL" was
+    always a non-empty string handed in by the caller.  Now every base fault kind is also injected, at every
+    line position of every resource of every layout, under each way of addressing:
+    URL argument / loadURL(url) / URL derived from the file object's .name / no URL at all (no argument,
+    empty argument, a pseudo name like '<stdin>': the resource's URL is then None, the line number must be
+    there all the same, and %include lines must be absolute) x relative / absolute references.
+(b) LINE SHAPE: a fault whose culprit is a key line was only ever written 'key text'.  Now the culprit line of
+    every such kind (unknown key, key naming a section slot, key refused by the key type, repeated single key
+    - string and integer -, unconvertible value of a key / of a multikey before and after a good value / inside
+    a section / of an outer section that closes after an inner one) is written in every key spelling (as declared,
+    upper case) x every value shape (absent, absent with trailing blanks, literal, literal with inner blanks,
+    '$$', a defined name with a non-empty value, a defined name whose value is empty); for a repeated key the
+    first occurrence varies too.  A conversion error must carry the text AFTER expansion ('' for a bare key).
 """
+import io
+
 from vz import core
 from vz.gen import corpus as C
 from vz.gen import schema as M
@@ -39,6 +57,66 @@ REL = {INC[0]: "inc/one.conf", INC[1]: "deeper/two.conf", DEFS: "defs/names.conf
 UNSET_ENV = "VZ_C08_NEVER_SET"
 
 SINT = "vz.harness.dt.strict_int"
+
+# ---------------------------------------------------------------------------
+# wave 5 (a): the addressing axis.  (how the main resource is opened, how %include lines refer to resources)
+MAIN_PATH = "/v/dir/main.conf"          # the path whose file: URL is MAIN
+ADDRESSINGS = [
+    ("url-argument", "relative"),       # loadFile(file, url) - the only form used before wave 5
+    ("url-argument", "absolute"),
+    ("load-url", "relative"),           # loadURL(url): the loader opens the main resource itself
+    ("file-name", "relative"),          # loadFile(file): URL computed from file.name
+    ("no-url", "absolute"),             # loadFile(file), the file has no name: the resource has no URL
+    ("empty-url-argument", "absolute"),  # loadFile(file, "")
+    ("pseudo-file-name", "absolute"),   # loadFile(file), file.name == "<stdin>": no URL either
+]
+DEFAULT_ADDR = ADDRESSINGS[0]
+URLLESS = ("no-url", "empty-url-argument", "pseudo-file-name")
+SHAPE_ADDRESSINGS = {"quick": [("url-argument", "relative"), ("no-url", "absolute")],   # the two classes a parser
+                     "thorough": ADDRESSINGS}                                          # can see: URL string / None
+
+
+def addr_label(addr):
+    return "%s/%s" % tuple(addr)
+
+
+class _NamedIO(io.StringIO):
+    """an open text file with a .name, as open() returns it"""
+    name = None
+
+
+def load_addressed(sch, files, addr):
+    """-> ('ok', config, handler) | ('rejected', exc) | ('internal', exc); the main resource opened as `addr` says"""
+    import ZConfig
+    how = addr[0]
+    if how == "url-argument":
+        return H.load_mem(sch, files, MAIN)
+    try:
+        ld = H.mem_loader(sch, files)
+        text = files[MAIN]
+        if how == "load-url":
+            cfg, h = ld.loadURL(MAIN)
+        elif how == "file-name":
+            f = _NamedIO(text)
+            f.name = MAIN_PATH
+            cfg, h = ld.loadFile(f)
+        elif how == "no-url":
+            cfg, h = ld.loadFile(io.StringIO(text))
+        elif how == "empty-url-argument":
+            cfg, h = ld.loadFile(io.StringIO(text), "")
+        elif how == "pseudo-file-name":
+            f = _NamedIO(text)
+            f.name = "<stdin>"
+            cfg, h = ld.loadFile(f)
+        else:
+            raise core.HarnessError("unknown addressing %r" % (addr,))
+        return ("ok", cfg, h)
+    except ZConfig.ConfigurationError as e:
+        return ("rejected", e, None)
+    except core.HarnessError:
+        raise
+    except Exception as e:
+        return ("internal", e, None)
 
 
 def schema():
@@ -238,6 +316,93 @@ def state_faults(S, tname, before, after):
                          "history": hist}))
     return out
 
+
+# ---------------------------------------------------------------------------
+# wave 5 (b): the line-shape axis (fault family x key spelling x value shape)
+
+VALUE_SHAPES = [        # (label, what follows the key on the line, lines that must precede it, the value after expansion)
+    ("absent", "", (), ""),
+    ("absent-trailing-blanks", " \t ", (), ""),
+    ("literal", " v", (), "v"),
+    ("literal-inner-blanks", "\tv  w ", (), "v  w"),
+    ("escaped-dollar", " $$", (), "$"),
+    ("name-nonempty", " $zs", ("%define zs s",), "s"),
+    ("name-empty", " ${ze}", ("%define ze",), ""),
+]
+FIRST_SHAPES = ["absent", "literal", "name-empty"]       # shapes of the FIRST occurrence of a repeated key
+KEY_SPELLINGS = [("as-declared", lambda k: k), ("upper-case", lambda k: k.upper())]
+SHAPE_FAMILIES = ["unknown-key", "key-names-a-section-slot", "key-refused-by-keytype", "repeated-key",
+                  "repeated-int-key", "unconvertible-value", "unconvertible-multikey-value",
+                  "unconvertible-after-good-value", "unconvertible-before-good-value",
+                  "unconvertible-value-in-section", "unconvertible-value-of-outer-section-after-inner"]
+BARE = ("absent", "absent-trailing-blanks")
+
+
+def shape_faults(S, tname, before, after):
+    """The wave-5 family for one insertion point: 7-tuples like state_faults()."""
+    items = M.eff_items(S, tname)
+    keys = [it for it in items if isinstance(it, (M.Key, M.MultiKey))]
+    single_str = [it for it in keys if isinstance(it, M.Key) and it.datatype == "string"]
+    ints = [it for it in keys if it.datatype == SINT]
+    slots = {it.type: it for it in items if isinstance(it, M.Sect)}
+    named_slots = [it.name for it in items if isinstance(it, M.Sect) and it.name not in "*+"]
+    shapes = {s[0]: s for s in VALUE_SHAPES}
+    DCE = "DataConversionError"
+    out = []
+
+    def add(family, sp, sh, lines, culprit, cls, value, pre, first=None):
+        kind = "shape/%s/%s/%s" % (family, sp, sh) + ("/first-" + first if first else "")
+        axes = {"family": family, "key_spelling": sp, "value_shape": sh}
+        if first:
+            axes["first_shape"] = first
+        out.append((kind, list(pre) + list(lines), len(pre) + culprit, cls, value, None, axes))
+
+    for sp, spell in KEY_SPELLINGS:
+        for sh, text, pre, expanded in VALUE_SHAPES:
+            base_cell = (sp, sh) == ("as-declared", "literal")
+            if not base_cell:
+                add("unknown-key", sp, sh, [spell("zzunknown") + text], 0, None, None, pre)
+                add("key-refused-by-keytype", sp, sh, [spell("1x") + text], 0, DCE, ("KEY", spell("1x")), pre)
+            for nm in named_slots[:1]:
+                add("key-names-a-section-slot", sp, sh, [spell(nm) + text], 0, None, None, pre)
+            for it in single_str[:1]:
+                if it.name in after:
+                    pass        # the later seed line would be the culprit
+                elif it.name in before:
+                    add("repeated-key", sp, sh, [spell(it.name) + text], 0, None, None, pre)
+                else:
+                    for fs in FIRST_SHAPES:
+                        _, ftext, fpre, _ = shapes[fs]
+                        allpre = list(fpre) + [p for p in pre if p not in fpre]
+                        add("repeated-key", sp, sh, [it.name + ftext, "# c", spell(it.name) + text], 2, None, None,
+                            allpre, first=fs)
+            for it in ints:
+                single = isinstance(it, M.Key)
+                if single and it.name in (before | after):
+                    continue
+                if single:
+                    # repeated: refused when the second line is read, whatever the two values are
+                    add("repeated-int-key", sp, sh, [it.name + " 7", spell(it.name) + text], 1, None, None, pre)
+                    add("unconvertible-value", sp, sh, [spell(it.name) + text], 0, DCE, expanded, pre)
+                else:
+                    add("unconvertible-multikey-value", sp, sh, [spell(it.name) + text], 0, DCE, expanded, pre)
+                    add("unconvertible-after-good-value", sp, sh, [it.name + " 7", spell(it.name) + text], 1, DCE,
+                        expanded, pre)
+                    add("unconvertible-before-good-value", sp, sh, [spell(it.name) + text, it.name + " 7"], 0, DCE,
+                        expanded, pre)
+            if "leaf" in slots:
+                add("unconvertible-value-in-section", sp, sh,
+                    ["<leaf fresh6>", "  " + spell("li") + text, "  lk v", "", "</leaf>"], 1, DCE, expanded, pre)
+            for t in ("box", "inner"):
+                if t in slots:
+                    # the value belongs to the OUTER section, which is converted when it closes - after an inner
+                    # section has been opened, filled and closed
+                    add("unconvertible-value-of-outer-section-after-inner", sp, sh,
+                        ["<%s>" % t, "  " + spell("k2") + text, "  <leaf fresh7>", "    lk v", "  </leaf>", "  m1 v",
+                         "</%s>" % t], 1, DCE, expanded, pre)
+                    break
+    return out
+
 # ---------------------------------------------------------------------------
 
 def seed_lines(events):
@@ -316,13 +481,13 @@ def layouts(lines, tier):
     return out
 
 
-def materialise(layout):
+def materialise(layout, refs="relative"):
     files = {}
     for url, ls in layout.items():
         out = []
         for l in ls:
             if isinstance(l, tuple):
-                out.append("%include " + REL[l[1]])
+                out.append("%include " + (REL[l[1]] if refs == "relative" else l[1]))
             else:
                 out.append(l)
         files[url] = "\n".join(out) + "\n"
@@ -343,7 +508,7 @@ def flat_context(layout):
     return flat(MAIN)
 
 
-def check_fault(sch, layout, url, idx, fault, acc, mid, depth_of_resource):
+def check_fault(sch, layout, url, idx, fault, acc, mid, depth_of_resource, addr=DEFAULT_ADDR):
     import ZConfig
     kind, inj, culprit, cls, value = fault[:5]
     extra, axes = (fault[5], fault[6]) if len(fault) > 5 else (None, None)
@@ -360,19 +525,30 @@ def check_fault(sch, layout, url, idx, fault, acc, mid, depth_of_resource):
         lay[MAIN][0:0] = top
         if url == MAIN:
             shift = len(top)
-    files = materialise(lay)
+    files = materialise(lay, addr[1])
     exp_line = idx + shift + culprit + 1 if culprit is not None else None
-    case = {"member": mid, "files": files, "fault": kind, "resource": url, "culprit_line": exp_line}
-    if axes:
-        where = "main" if url == MAIN else "included-%d" % depth_of_resource
+    # the URL of the resource that holds the culprit: a main resource opened without any URL has none
+    exp_url = None if (url == MAIN and addr[0] in URLLESS) else url
+    case = {"member": mid, "files": files, "fault": kind, "resource": url, "culprit_line": exp_line,
+            "addressing": list(addr), "culprit_url": exp_url}
+    where = "main" if url == MAIN else "included-%d" % depth_of_resource
+    al = addr_label(addr)
+    if axes and "history" in axes:
         acc.extra["axis carrier=%s" % axes["carrier"]] += 1
         acc.extra["axis construct=%s" % axes["construct"]] += 1
         acc.extra["axis history=%s fault-in=%s" % (axes["history"], where)] += 1
+    elif axes:
+        acc.extra["axis shape family=%s" % axes["family"]] += 1
+        acc.extra["axis shape key-spelling=%s" % axes["key_spelling"]] += 1
+        acc.extra["axis shape value-shape=%s fault-in=%s" % (axes["value_shape"], where)] += 1
+        acc.extra["axis shape addressing=%s" % al] += 1
+    elif addr != DEFAULT_ADDR:
+        acc.extra["axis addressing=%s fault-in=%s" % (al, where)] += 1
     acc.ev()
     acc.transitions += 1
     acc.current = case
     del DT.RAISED[:]
-    r = H.load_mem(sch, files, MAIN)
+    r = load_addressed(sch, files, addr)
     if url != MAIN or (exp_line or 0) > 1:
         acc.nt()
     acc.sample(lambda: case)
@@ -389,14 +565,25 @@ def check_fault(sch, layout, url, idx, fault, acc, mid, depth_of_resource):
         return
     got = {"class": type(e).__name__, "lineno": getattr(e, "lineno", "<absent>"),
            "url": getattr(e, "url", "<absent>"), "msg": str(e)[:100]}
-    acc.cls("rejected:" + kind)
+    if addr == DEFAULT_ADDR or (axes and "family" in axes):
+        acc.cls("rejected:" + kind)
+    else:
+        acc.cls("rejected[%s]:%s" % (al, kind))
+    if axes and "family" in axes and axes["value_shape"] in BARE:
+        acc.extra["culprit is a key line without any value text: rejected"] += 1
+    if addr[0] in URLLESS and url == MAIN and exp_line is not None:
+        acc.extra["culprit in a main resource that has no URL: rejected"] += 1
+        if got["class"] == "DataConversionError" and any(x.strip().startswith("</") for x in inj[culprit + 1:]):
+            acc.extra["unconvertible value in a URL-less main resource, converted when a later line closes the section"] += 1
     empty_form = kind.endswith("-empty")
     tags = {"kind": "position", "fault": kind, "empty_form": empty_form, "exc": got["class"]}
     if axes:
         tags.update(axes)
-    if exp_line is not None and (got["lineno"] != exp_line or got["url"] != url):
-        tags["what"] = ("lineno" if got["lineno"] != exp_line else "") + ("url" if got["url"] != url else "")
-        acc.violation("wrong-or-missing-position", case, got, {"lineno": exp_line, "url": url}, tags=tags)
+    if addr != DEFAULT_ADDR:
+        tags["addressing"] = al
+    if exp_line is not None and (got["lineno"] != exp_line or got["url"] != exp_url):
+        tags["what"] = ("lineno" if got["lineno"] != exp_line else "") + ("url" if got["url"] != exp_url else "")
+        acc.violation("wrong-or-missing-position", case, got, {"lineno": exp_line, "url": exp_url}, tags=tags)
         return
     if cls is not None:
         ok = got["class"] in (cls if isinstance(cls, tuple) else (cls,))
@@ -405,12 +592,15 @@ def check_fault(sch, layout, url, idx, fault, acc, mid, depth_of_resource):
             return
     if isinstance(e, ZConfig.DataConversionError) and value is not None:
         v = getattr(e, "value", "<absent>")
+        from_key = value == "1x" or isinstance(value, tuple)        # refused by the key type, not by strict_int
+        if isinstance(value, tuple):
+            value = value[1]
         if value == "SECTION":
             okv = hasattr(v, "getSectionAttributes")
         else:
             okv = v == value
         orig = getattr(e, "exception", None)
-        if not okv or not isinstance(orig, ValueError) or (value != "1x" and (not DT.RAISED or orig is not DT.RAISED[-1])):
+        if not okv or not isinstance(orig, ValueError) or (not from_key and (not DT.RAISED or orig is not DT.RAISED[-1])):
             acc.violation("conversion-error-lacks-value-or-original-exception", case,
                           {"value": repr(v)[:80], "exception": repr(orig)[:80]}, {"value": value},
                           tags=dict(tags, kind="conversion-error-attributes"))
@@ -440,7 +630,8 @@ DEEP_SEEDS = [
 ]
 
 
-def check_seed(S, sch, events, acc, mid, tier, decorated=False, state_axis=False, base=True):
+def check_seed(S, sch, events, acc, mid, tier, decorated=False, state_axis=False, base=True, addr_axis=False,
+               shape_axis=False):
     lines = seed_lines(events)
     if decorated:
         lines = decorate(lines)
@@ -448,6 +639,11 @@ def check_seed(S, sch, events, acc, mid, tier, decorated=False, state_axis=False
         acc.states += 1
     if state_axis:
         acc.extra["seeds with the directive-state axis"] += 1
+    if addr_axis:
+        acc.extra["seeds with the addressing axis"] += 1
+    if shape_axis:
+        acc.extra["seeds with the line-shape axis"] += 1
+    shape_addrs = SHAPE_ADDRESSINGS[tier]
     for layout in layouts(lines, tier):
         flat = flat_context(layout)
         flat_lines = [f[2] for f in flat]
@@ -489,6 +685,16 @@ def check_seed(S, sch, events, acc, mid, tier, decorated=False, state_axis=False
             if state_axis:
                 for fault in state_faults(S, tname, before, after):
                     check_fault(sch, layout, url, idx, fault, acc, mid, depth[url])
+            if addr_axis:
+                fl = faults_for(S, tname, before, after, used)
+                for addr in ADDRESSINGS[1:]:
+                    for fault in fl:
+                        check_fault(sch, layout, url, idx, fault, acc, mid, depth[url], addr)
+            if shape_axis:
+                fl = shape_faults(S, tname, before, after)
+                for addr in shape_addrs:
+                    for fault in fl:
+                        check_fault(sch, layout, url, idx, fault, acc, mid, depth[url], addr)
 
 
 def _descendants(layout, url):
@@ -501,11 +707,15 @@ def _descendants(layout, url):
 
 STATE_AXIS_EVERY = {"quick": 8, "thorough": 4}     # seeds (per first event) that get the wave-2 product
 SEED_PARTS = {"quick": 1, "thorough": 8}           # shards per first event (balance only: same explored set)
+# wave 5: which accepted seeds (numbered per first event) carry the new axes: (modulus, residue)
+ADDR_AXIS_SEEDS = {"quick": (16, 2), "thorough": (16, 2)}    # even numbers: the decorated spelling
+SHAPE_AXIS_SEEDS = {"quick": (16, 5), "thorough": (32, 5)}   # odd numbers: the plain spelling (thorough: x 7 addressings)
 
 
 def shard(arg, acc):
     first, depth, tier = arg[:3]
-    part, parts = arg[3:] if len(arg) > 3 else (0, 1)   # the seeds of one first event, dealt round-robin to `parts` shards
+    part, parts = arg[3:5] if len(arg) > 3 else (0, 1)  # the seeds of one first event, dealt round-robin to `parts` shards
+    what = arg[5] if len(arg) > 5 else "main"           # "main": base kinds + directive-state axis; "w5": the wave-5 axes
     S2 = schema()
     xml = M.render(S2)
     sch = H.load_schema(xml)
@@ -517,7 +727,10 @@ def shard(arg, acc):
         # kinds, one more for the directive-state axis on the plain spelling
         ev, dec, part = DEEP_SEEDS[first[1]], first[2], first[3]
         assert H.load(sch, H.render_events(ev))[0] == "ok", ev
-        check_seed(S2, sch, ev, acc, mid, "thorough", decorated=dec, state_axis=(part == "state"), base=(part == "base"))
+        # (the wave-5 parts take the layouts of the tier: in quick every second range, at most two nested ones each)
+        check_seed(S2, sch, ev, acc, mid, tier if part in ("addr", "shape") else "thorough", decorated=dec,
+                   state_axis=(part == "state"), base=(part == "base"),
+                   addr_axis=(part == "addr"), shape_axis=(part == "shape"))
         acc.traces = acc.transitions
         return acc
     for events, d in C.nodes(S2, (first,), depth, lean=True):
@@ -534,6 +747,13 @@ def shard(arg, acc):
             acc.extra["seeds_beyond_cap"] += (part == 0)
             continue
         if n % parts != part:
+            continue
+        if what == "w5":
+            am, ar = ADDR_AXIS_SEEDS[tier]
+            sm, sr = SHAPE_AXIS_SEEDS[tier]
+            if n % am == ar or n % sm == sr:
+                check_seed(S2, sch, events, acc, mid, tier, decorated=(n % 2 == 0), base=False,
+                           addr_axis=(n % am == ar), shape_axis=(n % sm == sr))
             continue
         check_seed(S2, sch, events, acc, mid, tier, decorated=(n % 2 == 0),
                    state_axis=(n % STATE_AXIS_EVERY[tier] == 1 % STATE_AXIS_EVERY[tier]))
@@ -562,26 +782,56 @@ def run(tier):
              "included before, 'defined-twice' = top of main plus a legal repeat on the previous line), plus per history "
              "a conflicting redefinition (plain and after expansion) of a name defined there, a value that is "
              "unconvertible only through a name defined there (culprit = the value's line, not the definition's), and "
-             "per carrier a use of a name defined only on the next line." % (
+             "per carrier a use of a name defined only on the next line.  "
+             "Wave 5, addressing axis (seeds no. %d mod %d of each first event - decorated spelling - and the decorated "
+             "deep seeds; every line position of every resource of every layout; every base fault kind): the main "
+             "resource is opened in each of the ways %s (how it gets its URL / how %%include lines refer to the other "
+             "resources); with no-url, empty-url-argument and pseudo-file-name the main resource HAS NO URL: an error "
+             "whose culprit is there must carry url None and the right line all the same.  "
+             "Wave 5, line-shape axis (seeds no. %d mod %d - plain spelling - and the plain deep seeds; every line "
+             "position of every resource of every layout; under the addressings %s): every fault family whose culprit "
+             "is a key line (%s) x key spelling (%s) x value shape (%s; for a repeated key also the first occurrence "
+             "in the shapes %s); a conversion error must carry the text after expansion ('' for a key without value)." % (
                  depth, {1: "single", 2: "2nd", 4: "4th", 8: "8th"}[STATE_AXIS_EVERY[tier]], ", ".join(CARRIERS),
-                 ", ".join(c[0] for c in CONSTRUCTS), ", ".join(HISTORIES)),
+                 ", ".join(c[0] for c in CONSTRUCTS), ", ".join(HISTORIES),
+                 ADDR_AXIS_SEEDS[tier][1], ADDR_AXIS_SEEDS[tier][0], ", ".join(addr_label(x) for x in ADDRESSINGS),
+                 SHAPE_AXIS_SEEDS[tier][1], SHAPE_AXIS_SEEDS[tier][0],
+                 ", ".join(addr_label(x) for x in SHAPE_ADDRESSINGS[tier]), ", ".join(SHAPE_FAMILIES),
+                 ", ".join(x[0] for x in KEY_SPELLINGS), ", ".join(x[0] for x in VALUE_SHAPES), ", ".join(FIRST_SHAPES)),
         bounds={"first_events": len(firsts), "depth": depth,
                 "state_axis": {"carriers": CARRIERS, "constructs": [c[1] for c in CONSTRUCTS], "histories": HISTORIES,
                                "seeds": "every %d. accepted seed per first event + %d deep seeds (plain spelling)"
                                         % (STATE_AXIS_EVERY[tier], len(DEEP_SEEDS)),
-                               "positions": "every line position of every resource of every layout of those seeds"}},
+                               "positions": "every line position of every resource of every layout of those seeds"},
+                "addressing_axis": {"addressings (main resource opened as / include references)":
+                                        [addr_label(x) for x in ADDRESSINGS],
+                                    "main resource without URL under": list(URLLESS),
+                                    "fault kinds": "all base kinds",
+                                    "seeds": "accepted seed no. %d mod %d per first event (decorated) + %d deep seeds "
+                                             "(decorated; layouts of the tier)" % (ADDR_AXIS_SEEDS[tier][1],
+                                                                                  ADDR_AXIS_SEEDS[tier][0], len(DEEP_SEEDS)),
+                                    "positions": "every line position of every resource of every layout of those seeds"},
+                "line_shape_axis": {"families": SHAPE_FAMILIES, "key_spellings": [x[0] for x in KEY_SPELLINGS],
+                                    "value_shapes": {x[0]: "key" + x[1] + ("   (after: %s)" % "; ".join(x[2]) if x[2] else "")
+                                                     for x in VALUE_SHAPES},
+                                    "first_occurrence_shapes_of_a_repeated_key": FIRST_SHAPES,
+                                    "addressings": [addr_label(x) for x in SHAPE_ADDRESSINGS[tier]],
+                                    "seeds": "accepted seed no. %d mod %d per first event (plain) + %d deep seeds (plain; "
+                                             "layouts of the tier)" % (SHAPE_AXIS_SEEDS[tier][1], SHAPE_AXIS_SEEDS[tier][0],
+                                                                      len(DEEP_SEEDS)),
+                                    "positions": "every line position of every resource of every layout of those seeds"}},
         assumptions=["culprit line known by construction: seeds are accepted texts, one fault injected",
                      "which of two errors is reported when a fault implies two is not compared (single faults only)"])
     import os
     if UNSET_ENV in os.environ:
         raise core.HarnessError("environment variable %s must not be set" % UNSET_ENV)
     deep = [(("deep", i, dec, part), depth, tier) for i in range(len(DEEP_SEEDS))
-            for dec, part in ((False, "base"), (False, "state"), (True, "base"))]
+            for dec, part in ((False, "base"), (False, "state"), (True, "base"), (True, "addr"), (False, "shape"))]
     parts = SEED_PARTS[tier]
-    core.pmap(shard, deep + [(ev, depth, tier, k, parts) for ev in firsts for k in range(parts)], run.acc,
-              shard_budget=3000.0)
+    core.pmap(shard, deep + [(ev, depth, tier, k, parts, what) for what in ("main", "w5") for ev in firsts
+                             for k in range(parts)], run.acc, shard_budget=3000.0)
     a = run.acc
-    kinds = [k for k in a.classes if k.startswith("rejected:") and not k.startswith("rejected:sub/")]
+    kinds = [k for k in a.classes if k.startswith("rejected:") and not k.startswith(("rejected:sub/", "rejected:shape/"))]
     run.require(len(kinds) >= 30, "only %d fault kinds exercised" % len(kinds))
     run.require(a.states >= 20, "few seeds")
     # the directive-state axis was really walked: every carrier x construct x history cell rejected somewhere,
@@ -596,6 +846,41 @@ def run(tier):
             n = a.extra["axis history=%s fault-in=%s" % (h, w)]
             run.require(n >= 50, "history %s with the fault in %s: only %d loads" % (h, w, n))
     run.require(a.extra["seeds with the directive-state axis"] >= 20, "few seeds carry the directive-state axis")
+    # wave 5, addressing: every addressing met >= 30 base kinds, with the culprit in the main resource and in included
+    # ones at both depths; culprits in a URL-less main resource were rejected, among them values that are only
+    # converted when a later line closes their section
+    for addr in ADDRESSINGS[1:]:
+        al = addr_label(addr)
+        nk = len([k for k in a.classes if k.startswith("rejected[%s]:" % al)])
+        run.require(nk >= 30, "addressing %s: only %d base fault kinds rejected" % (al, nk))
+        for w in ("main", "included-1", "included-2"):
+            n = a.extra["axis addressing=%s fault-in=%s" % (al, w)]
+            run.require(n >= 1000, "addressing %s with the fault in %s: only %d loads" % (al, w, n))
+    run.require(a.extra["seeds with the addressing axis"] >= 20, "few seeds carry the addressing axis")
+    n = a.extra["culprit in a main resource that has no URL: rejected"]
+    run.require(n >= 10000, "culprit in a URL-less main resource: only %d rejected loads" % n)
+    n = a.extra["unconvertible value in a URL-less main resource, converted when a later line closes the section"]
+    run.require(n >= 1000, "values converted at a later closing line of a URL-less main resource: only %d" % n)
+    # wave 5, line shape: every family x spelling x shape cell rejected somewhere; every shape with the culprit in
+    # each kind of resource; every addressing of the tier; bare key lines really occurred
+    cells = [k for k in a.classes if k.startswith("rejected:shape/")]
+    per = len(KEY_SPELLINGS) * len(VALUE_SHAPES)
+    want = (len(SHAPE_FAMILIES) * per - 2      # (as-declared, literal) of unknown-key / refused key are base kinds
+            + len(FIRST_SHAPES) * per)         # repeated-key: key already present | x first-occurrence shapes
+    run.require(len(cells) == want, "line-shape product: %d of %d cells rejected" % (len(cells), want))
+    for fam in SHAPE_FAMILIES:
+        n = a.extra["axis shape family=%s" % fam]
+        run.require(n >= 1000, "line-shape family %s: only %d loads" % (fam, n))
+    for sh in VALUE_SHAPES:
+        for w in ("main", "included-1", "included-2"):
+            n = a.extra["axis shape value-shape=%s fault-in=%s" % (sh[0], w)]
+            run.require(n >= 1000, "value shape %s with the fault in %s: only %d loads" % (sh[0], w, n))
+    for addr in SHAPE_ADDRESSINGS[tier]:
+        n = a.extra["axis shape addressing=%s" % addr_label(addr)]
+        run.require(n >= 10000, "line shapes under addressing %s: only %d loads" % (addr_label(addr), n))
+    n = a.extra["culprit is a key line without any value text: rejected"]
+    run.require(n >= 10000, "bare key lines as culprit: only %d rejected loads" % n)
+    run.require(a.extra["seeds with the line-shape axis"] >= 20, "few seeds carry the line-shape axis")
     return run
 
 
@@ -604,12 +889,15 @@ def replay(body):
     rc = 0
     for _ in range(2):
         sch = H.load_schema(case["member"]["schema"])
-        r = H.load_mem(sch, case["files"], MAIN)
+        addr = tuple(case.get("addressing") or DEFAULT_ADDR)
+        exp_url = case.get("culprit_url", case["resource"]) if "addressing" in case else case["resource"]
+        r = load_addressed(sch, case["files"], addr)
+        print("main resource opened as:", addr_label(addr))
         for u, t in case["files"].items():
             print("--- %s\n%s" % (u, t), end="")
         e = r[1]
-        print("fault:", case["fault"], "culprit:", case["resource"], "line", case["culprit_line"])
+        print("fault:", case["fault"], "culprit:", case["resource"], "line", case["culprit_line"], "expected url:", exp_url)
         print("observed:", r[0], type(e).__name__, "lineno=%r url=%r" % (getattr(e, "lineno", "<absent>"), getattr(e, "url", "<absent>")), str(e)[:100])
-        if r[0] != "rejected" or getattr(e, "lineno", None) != case["culprit_line"] or getattr(e, "url", None) != case["resource"]:
+        if r[0] != "rejected" or getattr(e, "lineno", None) != case["culprit_line"] or getattr(e, "url", "<absent>") != exp_url:
             rc = 1
     return rc
